@@ -31,13 +31,14 @@ fn delta(id: u64, ts: u64, payload: &[u8], r: u64) -> ReplicationDelta {
 }
 
 #[derive(Clone, Copy, Debug)]
-enum Mutation { Truncate { file: usize, len: usize }, Flip { file: usize, byte: usize, bit: u8 }, Burst { file: usize, byte: usize, pattern: u32 }, Remove { file: usize } }
+enum Mutation { ZeroTail { file: usize, len: usize, zeros: usize }, Truncate { file: usize, len: usize }, Flip { file: usize, byte: usize, bit: u8 }, Burst { file: usize, byte: usize, pattern: u32 }, Remove { file: usize } }
 
 fn apply(img: &Image, names: &[String], m: Mutation) -> (Image, usize, usize) {
     // returns (mutated image, damaged file index, first damaged byte offset)
     let mut out = img.clone();
     match m {
         Mutation::Truncate { file, len } => { let f = out.get_mut(&names[file]).unwrap(); f.truncate(len); (out, file, len) }
+        Mutation::ZeroTail { file, len, zeros } => { let f = out.get_mut(&names[file]).unwrap(); f.truncate(len); f.extend(std::iter::repeat(0u8).take(zeros)); (out, file, len) }
         Mutation::Flip { file, byte, bit } => { let f = out.get_mut(&names[file]).unwrap(); f[byte] ^= 1 << bit; (out, file, byte) }
         Mutation::Burst { file, byte, pattern } => {
             let f = out.get_mut(&names[file]).unwrap();
@@ -54,7 +55,7 @@ impl Property for C10 {
     fn id(&self) -> &'static str { "C10" }
     fn level(&self) -> &'static str { "fault_enumeration" }
     fn rule(&self) -> &'static str {
-        "per generated multi-file WAL (real writer; entry sizes 1 B-4 KiB, header-looking payloads, non-monotone stamps): at-rest damage = every truncation length, every single-bit flip, sampled bursts <= 32 bits, file removal (thorough: exhaustive per image; quick: all header/entry-header bits + sampled payload bits and lengths), each followed by recover_all_entries; then truncate_before(T) for every T in stamps±1 with and without an active writer. Non-trivial = mutation lands inside an entry or header of a file that holds >= 1 entry; distinct = (image fingerprint, mutation)"
+        "per generated multi-file WAL (real writer; entry sizes 1 B-4 KiB, header-looking payloads, non-monotone stamps): at-rest damage = every truncation length, every single-bit flip, sampled bursts <= 32 bits, file removal, zero-filled tails (16-96 zero bytes after every structural cut) (thorough: exhaustive per image; quick: all header/entry-header bits + sampled payload bits and lengths), each followed by recover_all_entries; then truncate_before(T) for every T in stamps±1 with and without an active writer. Non-trivial = mutation lands inside an entry or header of a file that holds >= 1 entry; distinct = (image fingerprint, mutation)"
     }
     fn components_real(&self) -> Vec<&'static str> { vec!["streaming::wal::{WalRotator,WalWriter,WalReader,WalEntry::decode}", "WalRotator::{recover_all_entries,recover_entries_after,truncate_before}"] }
     fn components_stubbed(&self) -> Vec<&'static str> { vec!["WalStore -> SimWalStore (in-memory image, mutated at rest)"] }
@@ -65,7 +66,7 @@ impl Property for C10 {
     fn run(&self, src: &mut Src, ctx: &RunCtx) -> RunReport {
         let mut rep = RunReport::default();
         let mode = src.below(8); // 1 => single mutation from the header cells (used by retargeted tapes); else enumerate
-        let h_kind = src.below(4);
+        let h_kind = src.below(5);
         let h_file = src.below(8);
         let h_off = src.below(1 << 20);
         let h_arg = src.u64_any();
@@ -117,6 +118,7 @@ impl Property for C10 {
                 0 => Mutation::Truncate { file, len: (h_off as usize) % (flen + 1) },
                 1 => Mutation::Flip { file, byte: (h_off as usize) % flen.max(1), bit: (h_arg % 8) as u8 },
                 2 => Mutation::Burst { file, byte: (h_off as usize) % flen.max(1), pattern: h_arg as u32 },
+                4 => Mutation::ZeroTail { file, len: (h_off as usize) % (flen + 1), zeros: 1 + (h_arg as usize) % 96 },
                 _ => Mutation::Remove { file },
             };
             muts.push(m);
@@ -145,6 +147,8 @@ impl Property for C10 {
                 let bursts = if thorough { 64 } else { 12 };
                 for _ in 0..bursts { if flen == 0 { break; } h = mix(h, 7); let byte = (h % flen as u64) as usize; h = mix(h, 9); muts.push(Mutation::Burst { file, byte, pattern: h as u32 }); }
                 muts.push(Mutation::Remove { file });
+                // a crash can leave a file extended with zero-filled blocks instead of (or after) the torn tail
+                for len in hot.iter().copied().chain([flen]) { if len <= flen && len >= 16 { for zeros in [16usize, 17, 48, 96] { muts.push(Mutation::ZeroTail { file, len, zeros }); } } }
             }
         }
 
@@ -207,6 +211,7 @@ impl Property for C10 {
                     Mutation::Flip { file, byte, bit } => (1, file, byte, bit as u64),
                     Mutation::Burst { file, byte, pattern } => (2, file, byte, pattern as u64),
                     Mutation::Remove { file } => (3, file, 0, 0),
+                    Mutation::ZeroTail { file, len, zeros } => (4, file, len, (zeros as u64).saturating_sub(1)),
                 };
                 rep.retarget = Some(vec![(H_MODE, 1), (H_KIND, kind), (H_FILE, file as u64), (H_OFF, off as u64), (H_ARG, arg)]);
                 rep.log(ctx.trace, || format!("mutation {:?} -> {}", m, msg));
